@@ -1,0 +1,15 @@
+//go:build verif
+
+package golang
+
+// Re-exports for the verification harness (/verif/harness/cc). No logic.
+
+func VerifSnakeToCamel(s string) string { return snakeToCamel(s) }
+
+func VerifTitle(s string) string { return title(s) }
+
+func VerifTitleServiceName(name, serviceName string) string {
+	return titleServiceName(name, serviceName)
+}
+
+func VerifIncludeNameToReference(s string) string { return includeNameToReference(s) }
